@@ -55,13 +55,28 @@ class PlainWorker:
     get back a JSON-able result."""
     DRIVER = r'''
 import sys, json, traceback
-sys.path.insert(0, %r)
+sys.path.insert(0, REPO_PATH)
 import athlib
 G = {'athlib': athlib}
 exec("from decimal import Decimal\nimport datetime, re, math", G)
 for line in sys.stdin:
     req = json.loads(line)
     out = {}
+    if req.get('script') is not None:
+        import io, contextlib
+        buf = io.StringIO()
+        code = 0
+        try:
+            with contextlib.redirect_stdout(buf):
+                exec(req['script'], {'__name__': '__replay__'})
+        except SystemExit as e:
+            code = e.code if isinstance(e.code, int) else (0 if e.code is None else 1)
+        except BaseException as e:
+            code = 3
+            buf.write('EXC ' + type(e).__name__ + ': ' + str(e))
+        sys.stdout.write(json.dumps({'code': code, 'out': buf.getvalue()[-2000:]}) + "\n")
+        sys.stdout.flush()
+        continue
     try:
         if req.get('setup'):
             exec(req['setup'], G)
@@ -87,14 +102,14 @@ for line in sys.stdin:
         e = dict(os.environ)
         e.pop('PYTHONPATH', None)
         e['PYTHONHASHSEED'] = '0'
-        self.p = subprocess.Popen([PLAIN_PY, '-c', self.DRIVER % REPO], cwd=REPO,
+        self.p = subprocess.Popen([PLAIN_PY, '-c', self.DRIVER.replace('REPO_PATH', repr(REPO))], cwd=REPO,
                                   stdin=subprocess.PIPE, stdout=subprocess.PIPE,
                                   stderr=subprocess.DEVNULL, text=True, env=e)
         self.calls = 0
 
     def eval(self, expr, setup=None):
         self.calls += 1
-        self.p.stdin.write(json.dumps({'expr': expr, 'setup': setup}) + "\n")
+        self.p.stdin.write(json.dumps({'expr': expr, 'setup': setup, 'script': None}) + "\n")
         self.p.stdin.flush()
         while True:
             line = self.p.stdout.readline()
@@ -106,6 +121,20 @@ for line in sys.stdin:
                     return json.loads(line)
                 except ValueError:
                     continue  # stray print() from the library
+
+    def run_script(self, script):
+        """exec a replay script in the plain process; returns (exit code, stdout)"""
+        self.calls += 1
+        self.p.stdin.write(json.dumps({'script': script}) + "\n")
+        self.p.stdin.flush()
+        while True:
+            line = self.p.stdout.readline()
+            if not line:
+                raise Inconclusive('plain worker died on script')
+            line = line.strip()
+            if line.startswith('{"code"'):
+                d = json.loads(line)
+                return d['code'], d['out']
 
     def close(self):
         try:
